@@ -37,15 +37,20 @@ def walk (args : List String) : IO String := do
         if stopped then continue
         let ty := tyOf i
         let size := h.sizes.getD i 0
-        match schemaIndex.find? (fun e => e.1 == ty && e.2.1 == vname) with
+        let found : Option Stmt :=
+          match schemaIndex.find? (fun e => e.1 == ty && e.2.1 == vname) with
+          | some (_, _, si) => some (schemas.getD si .skip)
+          | none => match schemaIndexWeak.find? (fun e => e.1 == ty && e.2.1 == vname) with
+            | some (_, _, si) => some (schemasWeak.getD si .skip)
+            | none => none
+        match found with
         | none =>
           noSchema := noSchema + 1
           if sized then
             rest := rest.drop size
             pos := pos + size
           else stopped := true      -- without a size table an unmodelled block cannot be skipped
-        | some (_, _, si) =>
-          let st := schemas.getD si .skip
+        | some st =>
           let input := if sized then rest.take size else rest
           match rd ver st (fun _ => 0) [] input with
           | none =>
